@@ -245,6 +245,8 @@ class Verifier(Engine):
         for f in o.pc:
             if o.kind == 'smoke' and self.has_quant(f): continue
             s.add(f)
+        if o.kind != 'smoke':
+            for f in self.global_axioms: s.add(f)
         s.add(Not(And(*goals)) if len(goals) > 1 else Not(goals[0]))
         r = s.check()
         be = 'z3-5.1.0(api)'
@@ -309,6 +311,7 @@ def _solve_group(idxs):
     if len(obs) > 2:
         inc = z3.Solver(); inc.set('timeout', 1000); inc.set('smt.auto_config', False)
         for f in obs[0].pc: inc.add(f)
+        for f in v.global_axioms: inc.add(f)
     for i, o in zip(idxs, obs):
         done = False
         if inc is not None and o.expect == 'unsat' and o.kind != 'smoke':
